@@ -17,7 +17,7 @@ Proof.
 Qed.
 
 Lemma build_acc_wires me mu a b : build_acc me mu a = Ok b ->
-  a_attr b = ac_attr a /\ a_wire0 b = wire0_of me a /\ a_wire b = wire_of me a.
+  a_attr b = ac_attr a /\ a_wire b = wire_of me a.
 Proof.
   unfold build_acc. intros H. apply bind_ok in H. destruct H as (x & _ & H). inversion H; subst. simpl. auto.
 Qed.
@@ -25,9 +25,11 @@ Qed.
 Lemma build_mod_static mc md : build_mod mc = Ok md ->
   m_name md = mc_name mc /\ m_export md = mc_export mc /\ m_ifaces md = interface_classes (mc_mro mc) /\
   m_features md = features_of (mc_mro mc) /\ m_impl md = mc_impl mc /\
-  Forall2 (fun a b => build_acc (mc_export mc) (main_unit (mc_accs mc)) a = Ok b) (mc_accs mc) (m_accs md).
+  Forall2 (fun a b => build_acc (mc_export mc) (main_unit (mc_accs mc)) a = Ok b) (mc_accs mc) (m_accs md) /\
+  dup_free (wires (m_accs md)) = true.
 Proof.
-  unfold build_mod. intros H. apply bind_ok in H. destruct H as (accs & Ha & H). inversion H; subst. simpl.
+  unfold build_mod. intros H. apply bind_ok in H. destruct H as (accs & Ha & H).
+  destruct (dup_free (wires accs)) eqn:D; simpl in H; [|discriminate]. inversion H; subst. simpl.
   repeat split; auto. apply map_resA_forall2; auto.
 Qed.
 
@@ -45,7 +47,7 @@ Lemma exists_wire_forall2 me mu (l : list acfg) (l' : list acc) (w : str) :
 Proof.
   induction 1 as [|a b l l' Hab Hl IH]; simpl.
   - split; intros [x [[] _]].
-  - destruct (build_acc_wires _ _ _ _ Hab) as (_ & _ & Hw). split.
+  - destruct (build_acc_wires _ _ _ _ Hab) as (_ & Hw). split.
     + intros [x [[Hx|Hx] H2]].
       * subst x. exists a. rewrite <- Hw. auto.
       * destruct IH as [IH _]. destruct IH as [y [Hy1 Hy2]]; eauto.
@@ -54,10 +56,60 @@ Proof.
       * destruct IH as [_ IH]. destruct IH as [y [Hy1 Hy2]]; eauto.
 Qed.
 
+(* wire names of the accessibles of a module as class + configuration define them, in order *)
+Definition cfg_wires (me : bool) (l : list acfg) : list str :=
+  flat_map (fun a => match wire_of me a with Some w => [w] | None => [] end) l.
+
+Lemma wires_forall2 me mu (l : list acfg) (l' : list acc) :
+  Forall2 (fun a b => build_acc me mu a = Ok b) l l' -> wires l' = cfg_wires me l.
+Proof.
+  induction 1 as [|a b l l' Hab Hl IH]; simpl; auto.
+  destruct (build_acc_wires _ _ _ _ Hab) as (_ & Hw). unfold wires in *. simpl. rewrite Hw, IH. auto.
+Qed.
+
+Lemma mem_str_in x l : mem_str x l = true <-> In x l.
+Proof.
+  induction l; simpl; [split; [discriminate|tauto]|]. rewrite orb_true_iff, IHl. split.
+  - intros [H|H]; auto. apply str_eqb_eq in H. auto.
+  - intros [H|H]; auto. subst. left. apply str_eqb_refl.
+Qed.
+
+Lemma dup_free_nodup l : dup_free l = true -> NoDup l.
+Proof.
+  induction l; simpl; intros H; constructor; apply andb_true_iff in H; destruct H as [H1 H2]; auto.
+  intros X. apply mem_str_in in X. rewrite X in H1. discriminate.
+Qed.
+
+Lemma dict_set_fresh {A} (k : str) (v : A) (l : list (str * A)) :
+  ~ In k (map fst l) -> dict_set k v l = l ++ [(k, v)].
+Proof.
+  induction l as [|[k' v'] r IH]; simpl; intros H; auto.
+  destruct (str_eqb k k') eqn:E.
+  - apply str_eqb_eq in E. subst. exfalso. apply H. auto.
+  - rewrite IH; auto.
+Qed.
+
+(* with distinct wire names the keys of the report are the wire names, in the order of the accessibles *)
+Lemma export_fold_keys_list (accs : list acc) (r : list (str * adesc)) :
+  NoDup (map fst r ++ wires accs) -> map fst (fold_left export_step accs r) = map fst r ++ wires accs.
+Proof.
+  revert r. induction accs as [|a l IH]; intros r H; simpl.
+  - unfold wires. simpl. rewrite app_nil_r. auto.
+  - unfold wires in *. simpl in *. unfold export_step at 2. destruct (a_wire a) as [w|]; simpl in *.
+    + rewrite dict_set_fresh.
+      * rewrite IH; rewrite map_app; simpl; rewrite <- app_assoc; simpl; auto.
+      * apply NoDup_remove_2 in H. intros X. apply H. apply in_or_app. auto.
+    + apply IH. auto.
+Qed.
+
+Lemma export_keys_list (accs : list acc) : NoDup (wires accs) -> map fst (export_accessibles accs) = wires accs.
+Proof. intros H. unfold export_accessibles. rewrite export_fold_keys_list; auto. Qed.
+
+(* the entry e of the report for the configured module mc *)
 Definition lists_module (mc : mcfg) (e : str * mdesc) : Prop :=
   fst e = mc_name mc /\
-  NoDup (map fst (md_accs (snd e))) /\
-  (forall w, In w (map fst (md_accs (snd e))) <-> exists a, In a (mc_accs mc) /\ wire_of true a = Some w) /\
+  map fst (md_accs (snd e)) = cfg_wires true (mc_accs mc) /\
+  NoDup (cfg_wires true (mc_accs mc)) /\
   md_impl (snd e) = mc_impl mc /\ md_ifaces (snd e) = interface_classes (mc_mro mc) /\
   md_features (snd e) = features_of (mc_mro mc).
 
@@ -65,13 +117,18 @@ Lemma lists_exactly n s : build n = Ok s -> Forall2 lists_module (filter mc_expo
 Proof.
   intros H. destruct (build_mods _ _ H) as (F & _). unfold describe. clear H.
   induction F as [|mc md l l' Hb Hl IH]; simpl; [constructor|].
-  destruct (build_mod_static _ _ Hb) as (Hn & He & Hi & Hf & Him & Ha). rewrite He.
+  destruct (build_mod_static _ _ Hb) as (Hn & He & Hi & Hf & Him & Ha & Hd). rewrite He.
   destruct (mc_export mc) eqn:E; [|exact IH]. constructor; [|exact IH].
+  assert (W : wires (m_accs md) = cfg_wires true (mc_accs mc)) by (eapply wires_forall2; eauto).
+  apply dup_free_nodup in Hd.
   unfold lists_module. simpl. repeat split; auto.
-  - apply export_nodup.
-  - rewrite export_keys. rewrite (exists_wire_forall2 _ _ _ _ w Ha). auto.
-  - rewrite export_keys. rewrite (exists_wire_forall2 _ _ _ _ w Ha). auto.
+  - rewrite export_keys_list; auto.
+  - rewrite <- W. auto.
 Qed.
+
+(* an unexported module lists nothing, whatever its configuration says *)
+Lemma cfg_wires_unexported l : cfg_wires false l = [].
+Proof. induction l; simpl; auto. Qed.
 
 (* the naming rules *)
 Lemma wire_name_rules attr :
@@ -81,39 +138,28 @@ Lemma wire_name_rules attr :
   (is_predefined attr = false -> fix_export attr ExTrue = Some (underscore :: attr)).
 Proof. unfold fix_export. repeat split; auto; intros H; rewrite H; auto. Qed.
 
-Lemma wire_of_no_cfg me a : ac_cfg_export a = None ->
-  wire_of me a = if me then fix_export (ac_attr a) (ac_export a) else None.
-Proof. unfold wire_of, wire0_of. intros H. rewrite H. auto. Qed.
+Lemma wire_of_spec me a :
+  wire_of me a = if me then fix_export (ac_attr a) (match ac_cfg_export a with Some e => e | None => ac_export a end)
+                 else None.
+Proof. reflexivity. Qed.
 
 (* ------------------------------------------------------------------ consistency of a freshly built node *)
-Definition export_settled (n : list mcfg) : Prop :=
-  forall mc a, In mc n -> In a (mc_accs mc) -> wire_of (mc_export mc) a = wire0_of (mc_export mc) a.
-
-Lemma no_cfg_export_settled n :
-  (forall mc a, In mc n -> In a (mc_accs mc) -> ac_cfg_export a = None) -> export_settled n.
-Proof. intros H mc a H1 H2. unfold wire_of. rewrite (H mc a H1 H2). auto. Qed.
-
 Lemma forall2_consistent me mu (l : list acfg) (l' : list acc) :
-  Forall2 (fun a b => build_acc me mu a = Ok b) l l' ->
-  (forall a, In a l -> wire_of me a = wire0_of me a) -> Forall (acc_consistent me) l'.
+  Forall2 (fun a b => build_acc me mu a = Ok b) l l' -> Forall (acc_consistent me) l'.
 Proof.
-  induction 1 as [|a b l l' Hab Hl IH]; intros HS; constructor.
-  - destruct (build_acc_wires _ _ _ _ Hab) as (_ & H0 & Hw). unfold acc_consistent. rewrite H0, Hw. split.
-    + apply HS. simpl. auto.
-    + intros E. subst. auto.
-  - apply IH. intros x Hx. apply HS. simpl. auto.
+  induction 1 as [|a b l l' Hab Hl IH]; constructor; auto.
+  destruct (build_acc_wires _ _ _ _ Hab) as (_ & Hw). unfold acc_consistent. rewrite Hw. intros E. subst. auto.
 Qed.
 
-Lemma build_consistent n s : build n = Ok s -> NoDup (map mc_name n) -> export_settled n -> consistent s.
+Lemma build_consistent n s : build n = Ok s -> NoDup (map mc_name n) -> consistent s.
 Proof.
-  intros H ND HS. destruct (build_mods _ _ H) as (F & _). unfold consistent.
+  intros H ND. destruct (build_mods _ _ H) as (F & _). unfold consistent.
   assert (G : Forall mod_consistent (s_mods s) /\ map m_name (s_mods s) = map mc_name n).
   { clear H ND. induction F as [|mc md l l' Hb Hl IH]; simpl; [split; auto|].
-    destruct (build_mod_static _ _ Hb) as (Hn & He & _ & _ & _ & Ha).
-    destruct IH as [IH1 IH2]. { intros mc' a H1 H2. apply HS; simpl; auto. }
+    destruct (build_mod_static _ _ Hb) as (Hn & He & _ & _ & _ & Ha & _).
+    destruct IH as [IH1 IH2].
     split; [constructor; auto|rewrite Hn, IH2; auto].
-    unfold mod_consistent. rewrite He. eapply forall2_consistent; eauto.
-    intros a Hin. apply HS; simpl; auto. }
+    unfold mod_consistent. rewrite He. eapply forall2_consistent; eauto. }
   destruct G as [G1 G2]. split; auto. rewrite G2. auto.
 Qed.
 
